@@ -27,7 +27,8 @@ type vestMachine struct {
 	acceptedSend, withdrawAfterLockEnd, rejectedAfterImplicitWithdraw, rejected int
 	exactLockEnd, maturedAndLocked, multiMaturePaid, fracFree, exactRemainder   int
 	restartMixedUnits, denomProposals, upperSpelled, genesisPools               int
-	sentToRecorded                                                              int
+	sentToRecorded, sendSwitchedOff                                             int
+	sendDisabled                                                                bool
 	recordedAbsent                                                              []sdk.AccAddress
 	created                                                                     []sdk.AccAddress // vesting accounts created so far
 }
@@ -423,7 +424,7 @@ func (m *vestMachine) actSend() {
 		// every documented precondition holds => the send must be accepted (in particular the exact remainder)
 		// (positive amounts only: the property does not say whether a zero-amount send must be accepted)
 		if !res.OK() && ps != nil && !amt.IsNil() && amt.IsPositive() && amt.LTE(avail) && !toExisted && !to.Equals(owner) &&
-			!m.v.App.BankKeeper.BlockedAddr(to) {
+			!m.v.App.BankKeeper.BlockedAddr(to) && !m.sendDisabled {
 			if _, ok := m.vtype(ps.VType); ok {
 				m.fail("send of %s from pool %q holding %s to the fresh address %s was rejected: %v %v", amt, pool, avail, to, res.Err, res.Panic)
 			}
@@ -607,6 +608,20 @@ func (m *vestMachine) actions() map[string]func(*rapid.T) {
 		"createVestingAccount": func(*rapid.T) { m.actCreateVestingAccount() },
 		"split":                func(*rapid.T) { m.actSplit() },
 		"denomProposal":        func(*rapid.T) { m.actDenomProposal() },
+		"bankSendSwitch":       func(*rapid.T) { m.actBankSendSwitch() },
+	}
+}
+
+// actBankSendSwitch flips the bank module's send-enabled parameter for the vesting denomination (a
+// governance-controlled parameter of another module).  It governs transfers between users: the
+// module refuses to create new vesting accounts while it is off, but what a matured pool owes its
+// owner is paid by the module account and stays withdrawable.
+func (m *vestMachine) actBankSendSwitch() {
+	m.sendDisabled = !m.sendDisabled
+	m.v.App.BankKeeper.SetParams(m.v.Ctx, m.v.App.BankKeeper.GetParams(m.v.Ctx).SetSendEnabledParam(Denom, !m.sendDisabled))
+	m.note("bank send-enabled[%s] = %v", Denom, !m.sendDisabled)
+	if m.sendDisabled {
+		m.sendSwitchedOff++
 	}
 }
 
